@@ -12,5 +12,5 @@ for m in "$@"; do
     ORIG-28) p=C03;; ORIG-29) p=C05;; ORIG-30) p=C03;; ORIG-31) p=C03;; ORIG-32) p=C08;;
     ORIG-33) p=C11;; ORIG-34) p=C11;; ORIG-35) p=C13;; ORIG-36) p=C18;;
   esac
-  VERIF_JOBS=8 python3 tools/mutants.py detect $m $p 2>&1 | cut -c1-330
+  VERIF_JOBS=${MJOBS:-8} python3 tools/mutants.py detect $m $p 2>&1 | cut -c1-330
 done
